@@ -1037,6 +1037,12 @@ func (a *Analysis) builtin(st *funcState, site ssa.CallInstruction, b *ssa.Built
 			}
 		}
 		a.setvRaw(st, res, s)
+		// the filter-in-place idiom `out := in[:0]; for ..{ out = append(out, x) }`: the appends
+		// overwrite the elements of `in`; when `in` is (a view of) a parameter that is a write
+		// into the caller's slice, whatever the element type
+		for _, sl := range resliceRoots(cc.Args[0], 0, map[ssa.Value]bool{}) {
+			a.writeInto(st, sl.X, Set{}, site.Pos(), 0)
+		}
 		// appending in place to a re-sliced view of someone else's storage writes that storage
 		if _, isSlice := cc.Args[0].(*ssa.Slice); isSlice {
 			if sl, ok := cc.Args[0].Type().Underlying().(*types.Slice); ok && !mayCarry(sl.Elem()) {
@@ -1195,4 +1201,32 @@ func (a *Analysis) external(st *funcState, site ssa.CallInstruction, callee *ssa
 			}
 		}
 	}
+}
+
+// resliceRoots finds the re-slicing expressions x[:k] (k below the length: a constant) that the
+// first argument of an append goes back to through merges and earlier appends.
+func resliceRoots(v ssa.Value, depth int, seen map[ssa.Value]bool) []*ssa.Slice {
+	if depth > 6 || seen[v] {
+		return nil
+	}
+	seen[v] = true
+	switch x := v.(type) {
+	case *ssa.Slice:
+		if _, isSliceT := x.X.Type().Underlying().(*types.Slice); isSliceT && x.High != nil {
+			if _, isConst := x.High.(*ssa.Const); isConst {
+				return []*ssa.Slice{x}
+			}
+		}
+	case *ssa.Phi:
+		var out []*ssa.Slice
+		for _, e := range x.Edges {
+			out = append(out, resliceRoots(e, depth+1, seen)...)
+		}
+		return out
+	case *ssa.Call:
+		if b, ok := x.Call.Value.(*ssa.Builtin); ok && b.Name() == "append" && len(x.Call.Args) > 0 {
+			return resliceRoots(x.Call.Args[0], depth+1, seen)
+		}
+	}
+	return nil
 }
